@@ -1,4 +1,5 @@
 import GomlVerif.Model.Syntax
+import GomlVerif.Model.FloatFmt
 /-
 Source-level meaning of the unified expression language: a definitional big-step
 interpreter with an observable world (stdout, reference store, spawned activations).
@@ -148,10 +149,9 @@ def goQuote (s : String) : String :=
       acc ++ "\\x" ++ String.singleton (hex (c.toNat / 16)) ++ String.singleton (hex (c.toNat % 16))
     else acc.push c) "" ++ "\""
 
-/-- Go `%g`-style shortest rendering is not reproduced here; floats are validated, not proved -/
-def showFloat (bits : Nat) (x : Float) : String :=
-  let _ := bits
-  toString x
+/-- "a readable decimal form": the shortest decimal that reads back as the same float, laid out as
+    Go's `%g` does (`Model/FloatFmt.lean`); floats are validated, not proved -/
+def showFloat (bits : Nat) (x : Float) : String := Goml.FloatFmt.goFormat bits x
 
 def utf8At (s : String) (i : Nat) : Option String :=
   let bs := s.toUTF8
